@@ -54,6 +54,15 @@ pub fn bad_bodies(cf: Cf, id: SeqId) -> Vec<Vec<u8>> {
 pub fn foreign_cfs(id: SeqId) -> Vec<Cf> {
     let info = seqs::info(id);
     let mut v: Vec<Cf> = vec![];
+    let mut v_extra: Vec<Cf> = vec![];
+    fn v_push(v: &mut Vec<Cf>, w: u16) {
+        v.push(((w >> 8) as u8, w as u8));
+    }
+    // the acknowledgement's control field has neighbours too (80 00)
+    for d in [1u16, 0xff, 0x100, 0x101] {
+        v_push(&mut v_extra, 0x8000u16.wrapping_add(d));
+        v_push(&mut v_extra, 0x8000u16.wrapping_sub(d));
+    }
     for (c, i) in info.alphabet() {
         v.extend([
             (c.wrapping_add(1), i),
@@ -64,8 +73,17 @@ pub fn foreign_cfs(id: SeqId) -> Vec<Cf> {
             (c, 0xff),
             (0x00, i),
             (0x84, i),
+            (i, c),
         ]);
+        // arithmetic neighbours of the 16-bit control field (carry between the two bytes)
+        let cfv = ((c as u16) << 8) | i as u16;
+        for d in [1u16, 0xff, 0x100, 0x101] {
+            for w in [cfv.wrapping_add(d), cfv.wrapping_sub(d)] {
+                v_push(&mut v_extra, w);
+            }
+        }
     }
+    v.extend(v_extra);
     v.extend([
         seqs::CF_ACK,
         (0x84, 0x00),
